@@ -39,7 +39,7 @@ COMPONENTS = {
     "stub_or_harness": ["history generator", "spec/value generators", "reference spec parser (which members are public)"],
 }
 FAULT_KINDS = ["setattr_attempt", "delattr_attempt", "source_list_mutation", "returned_value_mutation_attempt"]
-PROBES = ["array_of_structs", "optional_array_present", "blob_on_deserialized_instance", "case_data_mutated_through_parent",
+PROBES = ["array_element_mutation_attempt", "array_of_structs", "optional_array_present", "blob_on_deserialized_instance", "case_data_mutated_through_parent",
           "one_shot_iterator_argument", "nested_instance_setattr", "byte_size_setattr", "first_serialize_failed_skipped",
           "tree_rejected", "returned_value_was_mutable"]
 
@@ -157,7 +157,8 @@ def gen_ops(inst, rng, n):
         elif r < 0.8 and inst.sources:
             ops.append(["mutate_source", rng.randrange(len(inst.sources)), rng.choice(["append", "clear", "replace", "reverse"])])
         else:
-            ops.append(["mutate_returned", path, attr, rng.choice(["setitem", "append", "extend", "clear", "iadd"])])
+            ops.append(["mutate_returned", path, attr, rng.choice(["setitem", "append", "extend", "clear", "iadd"]),
+                        rng.choice([None, 0, 1, -1])])
     ops.append(["serialize"])
     return ops
 
@@ -282,6 +283,9 @@ def run_history(inst, ops, res, tr, case, shape):
                 res.count("probe.blob_on_deserialized_instance")
             how = op[3]
             ok = False
+            if len(op) > 4 and op[4] is not None and isinstance(v, tuple) and v:
+                v = v[op[4] % len(v)]       # an element of a returned array (e.g. a blob of a blob array)
+                res.count("probe.array_element_mutation_attempt")
             try:
                 if how == "setitem":
                     v[0] = v[0]
@@ -364,8 +368,7 @@ def execute(plan, env):
 
 def shrink(plan, still_fails, budget):
     from .. import core
-    env = core._ENV
-    res = core.run_one(__import__("sim.checks.c19_immutable", fromlist=["x"]), plan, env)
+    res = core.probe(plan)
     if res.violation is None or "case" not in res.violation:
         return plan
     case = res.violation["case"]
